@@ -854,13 +854,13 @@ fn dump_expr<R: Reader<Offset = usize>>(out: &mut String, expr: gimli::Expressio
     }
 }
 
-struct Counts {
-    items: u64,
-    errors: u64,
+pub struct Counts {
+    pub items: u64,
+    pub errors: u64,
 }
 
 /// semantic dump of everything the builder writes; readers never appear by `Debug`
-fn dump<R: Reader<Offset = usize>>(dwarf: &gimli::Dwarf<R>, debug_frame: &gimli::DebugFrame<R>, eh_frame: &gimli::EhFrame<R>, cnt: &mut Counts) -> String {
+pub fn dump<R: Reader<Offset = usize>>(dwarf: &gimli::Dwarf<R>, debug_frame: &gimli::DebugFrame<R>, eh_frame: &gimli::EhFrame<R>, cnt: &mut Counts) -> String {
     let mut o = String::new();
     macro_rules! err {
         ($o:expr, $cnt:expr, $what:expr, $e:expr) => {{
@@ -1158,7 +1158,7 @@ fn dump_insns<R: Reader<Offset = usize>>(o: &mut String, mut it: gimli::CallFram
     }
 }
 
-fn load<R: Reader<Offset = usize>>(address_size: u8, mk: &dyn Fn(usize) -> R) -> (gimli::Dwarf<R>, gimli::DebugFrame<R>, gimli::EhFrame<R>) {
+pub fn load<R: Reader<Offset = usize>>(address_size: u8, mk: &dyn Fn(usize) -> R) -> (gimli::Dwarf<R>, gimli::DebugFrame<R>, gimli::EhFrame<R>) {
     let empty_idx = usize::MAX;
     let dwarf = gimli::Dwarf::load(|id| -> Result<R, ()> { Ok(mk(SECS.iter().position(|s| *s == id).unwrap_or(empty_idx))) }).unwrap();
     let mut df = gimli::DebugFrame::from(mk(sec_index(SectionId::DebugFrame)));
